@@ -48,7 +48,9 @@ func admit(schema *graphql.Schema, query, opName, variables string, stopAfterNor
 		astnormalization.WithPrevalidationRules(
 			astvalidation.DeferStreamOnValidOperations(),
 			astvalidation.DeferStreamHaveUniqueLabels(),
+			astvalidation.DirectivesAreDefined(),
 			astvalidation.DirectivesAreInValidLocations(),
+			astvalidation.DirectivesAreUniquePerLocation(),
 			astvalidation.StreamAppliedToListFieldsOnly()),
 	)
 	if err != nil || !r1.Successful {
